@@ -86,6 +86,22 @@ class Real:
             return None
         return enc_md(self.storage.load_job(self.ids[j])["metadata"])
 
+    def view(self, j):
+        """what RunningJob.objective, stopper.step and stopper.observations show (base-class machinery)"""
+        if j >= len(self.rjobs):
+            return {}
+        rj = self.rjobs[j]
+        try:
+            obj = enc_obj(rj.objective)
+        except IndexError:
+            obj = None
+        try:
+            step = rj.stopper.step
+        except IndexError:
+            step = None
+        obs = rj.stopper.observations
+        return {"obj": obj, "step": step, "nobs": len(obs[1]), "_observations": obs}
+
     def rec(self, j, b, o):
         if j >= len(self.rjobs):
             return "KeyError"
@@ -141,6 +157,11 @@ def wire_P(P):
     return w
 
 
+class Steps(list):
+    """the steps of a run + what the stopper's own accessors showed wrongly (see Runner.step)"""
+    view_bad = ()
+
+
 class Runner:
     """protocol-level run on the real code: budgets 1,2,3,…, record then stopped, halted jobs are skipped.
     steps = [(job, budget, objective, decision, metadata of the acting job after the step)]"""
@@ -149,7 +170,8 @@ class Runner:
         self.P, self.curves = P, curves
         self.R = Real(P)
         self.nobs, self.halted = [], []
-        self.trace, self.steps, self.wire_events, self.events = [], [], [], []
+        self.trace, self.steps, self.wire_events, self.events = [], Steps(), [], []
+        self.raw, self.view_bad = {}, []   # objectives recorded per job; violations of "the stopper shows the raw objective"
 
     def add(self):
         self.R.add()
@@ -181,14 +203,22 @@ class Runner:
             self.trace.append({"r": e, "md": md})
             self.steps.append((j, b, o, e, md))
             return
+        v = R.view(j)
+        self.raw.setdefault(j, []).append(o)
+        obs = v.pop("_observations")
+        if v["obj"] != enc_obj(o) or v["step"] != b or [enc_obj(x) for x in obs[1]] != [enc_obj(x) for x in self.raw[j]] \
+                or list(obs[0]) != list(range(1, len(self.raw[j]) + 1)):
+            self.view_bad.append({"job": j, "budget": b, "recorded": enc_obj(o), "RunningJob.objective": v["obj"], "stopper.step": v["step"],
+                                  "stopper.observations": [list(obs[0]), [enc_obj(x) for x in obs[1]]]})
         d = R.stop(j)
         if d is not False:
             self.halted[j] = True
         md = R.md(j)
-        self.trace.append({"r": d, "md": md})
+        self.trace.append({"r": d, "md": md, **v})
         self.steps.append((j, b, o, d, md))
 
     def result(self):
+        self.steps.view_bad = self.view_bad
         return self.trace, self.R.final(), self.steps, self.wire_events
 
 
@@ -260,6 +290,9 @@ def _same_budget(P, idx, jj, md, h):
 def oracle(P, steps, final=None):
     """-> list of (clause, detail).  `steps` = [(job, budget, objective, decision, metadata of that job after the step)]"""
     bad = []
+    for vb in list(getattr(steps, "view_bad", ()))[:1]:
+        # RunningJob.objective / stopper.step / stopper.observations must show the raw (budget, objective) just recorded
+        bad.append(("objective-is-raw", vb))
     kind, ms = P["kind"], P["max_steps"]
     eps = Fraction(P.get("eps", EPS_DEFAULT)) if kind in ("sha", "median") else Fraction(0)
     seen = {}        # budget -> list of (job, objective) recorded so far (in order)
@@ -630,6 +663,10 @@ def _cmp_trace(ck, case, real_trace, real_final, rep):
         if a["r"] != m["r"] or (a["md"] is not None and norm_md(m["md"]) != a["md"]):
             ck.mismatch(case, {"event": i, "impl": a, "model": {"r": m["r"], "md": norm_md(m["md"])}})
             return False
+        if "obj" in a and (norm_md({"o": m.get("obj")})["o"] != a["obj"] or m.get("step") != a["step"] or m.get("nobs") != a["nobs"]):
+            ck.mismatch(case, {"event": i, "what": "RunningJob.objective / stopper.step / len(observations)",
+                               "impl": {k: a[k] for k in ("obj", "step", "nobs")}, "model": {k: m.get(k) for k in ("obj", "step", "nobs")}})
+            return False
     mf = [norm_md(x) for x in rep["final"]]
     if mf != real_final:
         ck.mismatch(case, {"what": "final metadata", "impl": real_final, "model": mf})
@@ -673,6 +710,29 @@ def _explore(ck, P, curves, events, tag, pending):
     _judge(ck.count, ck.hist, P, case, steps, final,
            lambda clause, small, detail: ck.fail(fingerprint(small["P"], clause), f"{KINDS[P['kind']]}: clause '{clause}' fails", small, detail))
     pending.append((case, trace, final, {"op": "proto", "P": wire_P(P), "events": wire_events}))
+    q = check_request(P, steps)
+    if q is not None:
+        pending.append((case, steps, "check", q))
+
+
+def check_request(P, steps):
+    """the trace of the real run for the verified checker (only complete Boolean decisions)"""
+    if any(not isinstance(d, bool) for (_, _, _, d, _) in steps) or not steps:
+        return None
+    return {"op": "check", "P": wire_P(P), "trace": [[j, b, enc_obj(o), d] for (j, b, o, d, _) in steps]}
+
+
+CHECKER_CLAUSES = {"budget", "failure", "best-survives", "sha-topk"}
+
+
+def cross_check(sink, case, P, steps, rep):
+    """Lean's verified verdict on the real trace vs. the Python statement of the same four clauses"""
+    py_bad = sorted({c for c, _ in oracle(P, steps) if c in CHECKER_CLAUSES})
+    if bool(rep["spec"]) != (not py_bad):
+        sink.mismatch(case, {"what": "verified checker (C16_checker) and the Python oracle disagree on the real trace",
+                             "lean_spec": rep["spec"], "lean_first_bad_event": rep.get("bad"), "python_clauses": py_bad})
+        return
+    sink.count("checker:spec-true" if rep["spec"] else "checker:spec-false")
 
 
 def oracle_detail(case, clause):
@@ -691,7 +751,10 @@ def _flush(ck, drv, pending):
         return
     reps = drv.ask_all([p[3] for p in pending])
     for (case, trace, final, _), rep in zip(pending, reps):
-        _cmp_trace(ck, case, trace, final, rep)
+        if final == "check":
+            cross_check(ck, case, case["P"], trace, rep)
+        else:
+            _cmp_trace(ck, case, trace, final, rep)
     pending.clear()
 
 
@@ -731,8 +794,38 @@ def _quiet():
     np.seterr(all="ignore")
 
 
+def base_machinery(ck):
+    """RunningJob without a stopper, the default RunningJob, Stopper.to_json (base-class / forwarding code)"""
+    from deephyper.evaluator import RunningJob
+    from deephyper.evaluator.storage import MemoryStorage
+
+    st = MemoryStorage()
+    sid = st.create_new_search()
+    jid = st.create_new_job(sid)
+    rj = RunningJob(jid, {"x": 1}, st, None)
+    seen = []
+    for b, o in [(1, 0.5), (2, 0.25), (3, "F")]:
+        rj.record(b, o)
+        seen.append((rj.stopped(), rj.objective))
+    case = {"kind": "no-stopper"}
+    ck.case(case, nontrivial=False)
+    ck.count("schedule:no-stopper")
+    if seen != [(False, 0.5), (False, 0.25), (False, "F")]:
+        ck.fail("C16|no-stopper|RunningJob.stopped|stopper=None", "a RunningJob without stopper must never stop and must show the last recorded objective", case, repr(seen))
+    rj0 = RunningJob()
+    rj0.record(1, 1.0)
+    if rj0.stopped() is not False or rj0.objective != 1.0 or rj0.id != "0.0":
+        ck.fail("C16|no-stopper|RunningJob.stopped|default", "default RunningJob()", case, repr((rj0.id, rj0.objective)))
+    for P in ({"kind": "idle", "max_steps": 3}, {"kind": "const", "max_steps": 3, "stop_step": 2},
+              {"kind": "sha", "max_steps": 3}, {"kind": "median", "max_steps": 3}):
+        s = build_stopper(P)
+        if s.to_json() != type(s).__name__:
+            ck.count("to_json-differs")
+
+
 def run(ck):
     _quiet()
+    base_machinery(ck)
     ck.rule = ("stoppers {Idle, Constant, SuccessiveHalving, Median} x parameters of the property's quantifier "
                "(max_steps {4,9,27}, min_steps {1,2,3}, reduction_factor {2,3,4}, min_early_stopping_rate {0,1}, interval_steps {1,2,3}, "
                "min_competing {0..3}, min_fully_completed {0,1,2}, epsilon {1e-10, 0, 0.25}) x curve families "
@@ -843,6 +936,10 @@ def _ex_worker(item, drv=None):
         _judge(cnt, res["counts"], P, case, steps, final, lambda clause, small, detail: res["fails"].append((clause, small, detail)))
         reqs.append({"op": "proto", "P": wire_P(P), "events": wire_events})
         metas.append((case, trace, final))
+        q = check_request(P, steps)
+        if q is not None:
+            reqs.append(q)
+            metas.append((case, steps, "check"))
 
     reqs, metas = [], []
     n = 0
@@ -877,9 +974,15 @@ def _ex_worker(item, drv=None):
                     res["mismatch"].append((case, detail))
                 cnt("L2_mismatch_raw")
 
+            def count(self, k, n=1):
+                cnt(k, n)
+
         sink = _Sink()
         for (case, trace, final), rep in zip(metas, reps):
-            _cmp_trace(sink, case, trace, final, rep)
+            if final == "check":
+                cross_check(sink, case, P, trace, rep)
+            else:
+                _cmp_trace(sink, case, trace, final, rep)
     return res
 
 
